@@ -136,7 +136,7 @@ type c14case struct {
 	imm   string
 }
 
-var c14Forms = []string{"direct", "derived-table", "cte", "row-subquery", "immediate", "nested-from", "join-side", "awaited-by-outer-query", "join-right-side"}
+var c14Forms = []string{"direct", "derived-table", "cte", "row-subquery", "immediate", "nested-from", "join-side", "awaited-by-outer-query", "join-right-side", "cte-over-nested-from", "nested-from-3d"}
 
 type c14 struct {
 	tier  string
@@ -191,7 +191,7 @@ func (p *c14) Init(tier string) {
 			lists[j], lists[j-1] = lists[j-1], lists[j]
 		}
 	}
-	for _, form := range []int{0, 1, 2, 3, 5, 6, 7, 8} {
+	for _, form := range []int{0, 1, 2, 3, 5, 6, 7, 8, 9, 10} {
 		for _, l := range lists {
 			for rows := 0; rows <= maxRows; rows++ {
 				if form != 0 && (rows == 0 || len(l) > 2) {
@@ -209,6 +209,14 @@ func (p *c14) Init(tier string) {
 					continue
 				}
 				if calls*rows > 4 {
+					continue
+				}
+				// the deeper forms multiply the forwarding goroutines: single items, <= 2 calls
+				if (form == 9 || form == 10) && (len(l) > 1 || calls*rows > 2) {
+					continue
+				}
+				// three dimensions: a chain of three waiters per call - one row (thorough: two)
+				if form == 10 && calls*rows > 1 && tier == "quick" {
 					continue
 				}
 				if form == 7 {
@@ -266,6 +274,10 @@ func (p *c14) build(c *c14case) (mk func() map[string]any, sql string, argCol st
 		sql = "SELECT " + list + " FROM m"
 	case 6:
 		sql = "SELECT * FROM (SELECT " + list + ", id AS jid FROM t) x JOIN u y ON x.jid = y.rid"
+	case 9:
+		sql = "WITH c AS (SELECT " + list + " FROM m) SELECT * FROM c"
+	case 10:
+		sql = "SELECT " + list + " FROM cube"
 	case 8:
 		sql = "SELECT * FROM u y JOIN (SELECT " + list + ", id AS jid FROM t) x ON x.jid = y.rid"
 	case 7:
@@ -294,7 +306,12 @@ func (p *c14) build(c *c14case) (mk func() map[string]any, sql string, argCol st
 		for _, row := range t {
 			m = append(m, []any{gq.Clone(row)})
 		}
-		return map[string]any{"t": t, "m": m, "u": u}
+		// three dimensions: every row two arrays deep (copies of copies of the query)
+		cube := []any{}
+		for _, row := range t {
+			cube = append(cube, []any{[]any{gq.Clone(row)}})
+		}
+		return map[string]any{"t": t, "m": m, "u": u, "cube": cube}
 	}
 	return
 }
@@ -342,10 +359,16 @@ func (p *c14) expected(c *c14case) []string {
 		}
 		out = append(out, gq.Render(full))
 	}
-	if c.form == 5 {
+	if c.form == 5 || c.form == 9 {
 		// every row sits in an inner array of its own: the result keeps the nesting
 		for i := range out {
 			out[i] = "[" + out[i] + "]"
+		}
+		return out
+	}
+	if c.form == 10 {
+		for i := range out {
+			out[i] = "[[" + out[i] + "]]"
 		}
 		return out
 	}
@@ -527,7 +550,7 @@ func (p *c14) RunCase(i int) *core.CaseResult {
 
 func (p *c14) Meta() core.Meta {
 	return core.Meta{
-		Rule: "one case per (select list of 1-2 (thorough 3) distinct items over {id, HSLOW, ASYNC.HSLOW, ASYNC.HFAST, SPINASYNC.HSLOW, SPIN.HSPIN, ONCE.HONCE, ONCE.HNILONCE (returns NULL), ASYNC.HMID, ASYNC.HFAILODD, SPINASYNC.HPANICODD, ASYNC.HPANICODD (calls that fail or panic on odd rows)}, form in {direct, derived table, CTE, row-scoped subquery, nested FROM (array of arrays), derived table as left / right join side, derived table awaited by the outer query}, 0-2 (thorough 3) rows) plus immediate functions under ASYNC/SPIN/SPINASYNC (built-in ones and one registered after queries have already run); each case = stateless exploration of every schedule with <= 2 (thorough 3) preemptions of the real engine (library go statements, mutex / wait-group operations and the harness functions' latency points are scheduling points); oracle on every schedule from the event log and the result. non-trivial = more than one schedule was executed",
+		Rule: "one case per (select list of 1-2 (thorough 3) distinct items over {id, HSLOW, ASYNC.HSLOW, ASYNC.HFAST, SPINASYNC.HSLOW, SPIN.HSPIN, ONCE.HONCE, ONCE.HNILONCE (returns NULL), ASYNC.HMID, ASYNC.HFAILODD, SPINASYNC.HPANICODD, ASYNC.HPANICODD (calls that fail or panic on odd rows)}, form in {direct, derived table, CTE, row-scoped subquery, nested FROM (array of arrays), derived table as left / right join side, CTE over a nested FROM, three-dimensional FROM, derived table awaited by the outer query}, 0-2 (thorough 3) rows) plus immediate functions under ASYNC/SPIN/SPINASYNC (built-in ones and one registered after queries have already run); each case = stateless exploration of every schedule with <= 2 (thorough 3) preemptions of the real engine (library go statements, mutex / wait-group operations and the harness functions' latency points are scheduling points); oracle on every schedule from the event log and the result. non-trivial = more than one schedule was executed",
 		Assumptions: []string{
 			"harness functions are deterministic and model latency only by yielding to the scheduler; their results do not depend on the schedule",
 			"scheduling points at sync operations, go statements, thread exit and harness yields (sufficient for race-free executions, DRF-SC; races are C13's matter)",
